@@ -49,7 +49,7 @@ func TestC05(t *testing.T) {
 }
 
 func scenario(c *vk.C, rng *rand.Rand, k int) {
-	cfg := rtp.GenCfg(rng, rtp.GenOpts{MaxCtrls: 3, MaxQ: 2, CachedProb: 0.4, AllowFilterShadow: k%10 == 0})
+	cfg := rtp.GenCfg(rng, rtp.GenOpts{MaxCtrls: 3, MaxQ: 2, CachedProb: 0.4, AllowFilterShadow: k%3 == 0})
 
 	w, err := rtp.NewWorld(rng, cfg)
 	if err != nil {
